@@ -605,10 +605,26 @@ func c09LiveThenCrash(run *hx.Run, dir string) {
 				continue
 			}
 			readVersioned(h)
+			// a second handle that reads now and not again until the writer is dead; and one transaction that
+			// commits in between: what this handle has cached is then TWO states behind what recovery leaves
+			blind, _ := sqlittle.Open(orig)
+			if blind != nil {
+				readVersioned(blind)
+				if err := o.Exec(orig, "UPDATE t SET pad = pad || '+' WHERE id % 3 = 0", "UPDATE meta SET version = version + 1000"); err != nil {
+					blind.Close()
+					blind = nil
+				}
+			}
+			closeBlind := func() {
+				if blind != nil {
+					blind.Close()
+				}
+			}
 			st, err := hx.StartStepper(sdir, orig, c.jmode, c.scenario, "", "step", 1, "")
 			if err != nil {
 				run.Inconclusive("live-then-crash stepper: " + err.Error())
 				h.Close()
+				closeBlind()
 				continue
 			}
 			sinceMagic := -1
@@ -651,6 +667,7 @@ func c09LiveThenCrash(run *hx.Run, dir string) {
 			if !killed {
 				run.Count("live_then_crash_kill_point_not_reached", 1)
 				h.Close()
+				closeBlind()
 				continue
 			}
 			jc := journalClass(orig + "-journal")
@@ -659,12 +676,14 @@ func c09LiveThenCrash(run *hx.Run, dir string) {
 			if err != nil || len(integ) != 1 || integ[0] != "ok" {
 				run.Inconclusive(fmt.Sprintf("%s: SQLite could not recover the pair: %v %v", name, err, integ))
 				h.Close()
+				closeBlind()
 				continue
 			}
 			want, err := sqliteVersioned(o, rec)
 			if err != nil {
 				run.Inconclusive("live-then-crash reference: " + err.Error())
 				h.Close()
+				closeBlind()
 				continue
 			}
 			run.Eval(1)
@@ -681,7 +700,52 @@ func c09LiveThenCrash(run *hx.Run, dir string) {
 					}
 				}
 			}
+			// the handle that has not read since before the last commit: refused, or the recovered state
+			handles := []struct {
+				name string
+				db   *sqlittle.DB
+			}{{"handle-that-read-during-the-transaction", h}}
+			if blind != nil {
+				handles = append(handles, struct {
+					name string
+					db   *sqlittle.DB
+				}{"handle-that-last-read-two-states-ago", blind})
+				v := readVersionedFrom(blind, stops)
+				nref := 0
+				for _, op := range verOps {
+					if v.errs[op] != nil {
+						nref++
+						continue
+					}
+					if df := diffRows(want[op], v.ops[op]); df != "" {
+						run.Violation(fmt.Sprintf("C09/unfinished-transaction-read/handle-that-last-read-two-states-ago/%s/%s", jc, opKind(op)), fmt.Sprintf("%s: the handle last read before the previous commit; the writer of the next transaction was killed; %s on that handle succeeds but differs from SQLite's post-recovery state: %s", name, op, df), hx.M{"scenario": name, "journal": jc})
+					}
+				}
+				run.See("blind_handle_after_crash", map[bool]string{true: "refused", false: "read"}[nref > 0])
+			}
+			// SQLite recovers the ORIGINAL pair in place; both handles go on: the recovered state, nothing remembered
+			// from before (the refused read in between must not have updated half of the handle's bookkeeping)
+			if _, err := o.Query(orig, "SELECT count(*) FROM t"); err == nil {
+				if want2, err := sqliteVersioned(o, orig); err == nil {
+					for _, hd := range handles {
+						v := readVersionedFrom(hd.db, stops+1)
+						run.Eval(1)
+						for _, op := range verOps {
+							if v.errs[op] != nil {
+								run.Violation(fmt.Sprintf("C09/after-recovery/%s/error/%s", hd.name, opKind(op)), fmt.Sprintf("%s: SQLite rolled the hot journal back in place; %s on the %s still fails: %v", name, op, hd.name, v.errs[op]), hx.M{"scenario": name})
+								break
+							}
+							if df := diffRows(want2[op], v.ops[op]); df != "" {
+								run.Violation(fmt.Sprintf("C09/after-recovery/%s/stale/%s", hd.name, opKind(op)), fmt.Sprintf("%s: SQLite rolled the hot journal back in place; %s on the %s differs from what SQLite reads now: %s", name, op, hd.name, df), hx.M{"scenario": name})
+								break
+							}
+						}
+						run.See("after_in_place_recovery", hd.name+": read")
+					}
+				}
+			}
 			h.Close()
+			closeBlind()
 		}
 	}
 }
